@@ -3,6 +3,7 @@
 Monitor: all-pairs comparison of independently built refs against the generator's own path
 descriptors (label + typed steps).  Each path is built twice, in two different managers.
 """
+import keyword
 import random
 
 from vlib import gen
@@ -32,8 +33,8 @@ HOSTILE = ["a", "b", "ab", "a b", "", " ", "a'b", 'a"b', "a']['b", "x].y", "r['a
 
 def plan(tier, seed):
     if tier == "quick":
-        return [{"mode": "compiled", "hashseed": 0, "families": 2, "size": 260, "collide": 20000, "exprs": 400},
-                {"mode": "pure", "hashseed": 1, "families": 2, "size": 200, "collide": 20000, "exprs": 300}]
+        return [{"mode": "compiled", "hashseed": 0, "families": 2, "size": 160, "collide": 20000, "exprs": 400},
+                {"mode": "pure", "hashseed": 1, "families": 2, "size": 130, "collide": 20000, "exprs": 300}]
     return [{"mode": "compiled" if i % 2 == 0 else "pure", "hashseed": i % 8, "families": 6, "size": 400,
              "collide": 100000, "exprs": 3000} for i in range(16)]
 
@@ -104,13 +105,32 @@ def run_shard(spec):
             kind, key = steps[j]
             if kind == "a":
                 steps[j] = ("i", key)
-            elif isinstance(key, str) and key.isidentifier():
+            elif isinstance(key, str) and key.isidentifier() and not key.startswith("_") and not keyword.iskeyword(key):
                 steps[j] = ("a", key)
             elif isinstance(key, int):
                 steps[j] = ("i", str(key))
             else:
                 steps[j] = ("i", repr(key))
             extra.append((p[0], tuple(steps)))
+        # keys that print alike: k vs (k,), tuple vs its text, number vs its text
+        for p in base[:spec["size"] // 3]:
+            steps = list(p[1])
+            items = [j for j, (kind, key) in enumerate(steps) if kind == "i"]
+            if not items:
+                continue
+            j = rng.choice(items)
+            key = steps[j][1]
+            variants = [(key,), ((key,),), repr(key), str(key)]
+            if isinstance(key, tuple):
+                variants += [", ".join(map(repr, key)), list(key) and key[0], key + key[:1]]
+            for v in variants:
+                try:
+                    hash(v)
+                except TypeError:
+                    continue
+                st = list(steps)
+                st[j] = ("i", v)
+                extra.append((p[0], tuple(st)))
         paths = base + extra
         ids = [desc_id(p) for p in paths]
         ma, mb = managers()
